@@ -18,6 +18,7 @@ import json
 import os
 import re
 import subprocess
+import threading
 import sys
 import time
 
@@ -311,22 +312,81 @@ def coqchk(prop_file):
 
 # ------------------------------------------------------------------ running cases
 
+CASE_TIMEOUT = float(os.environ.get("VERIF_CASE_TIMEOUT", "20"))
+MAX_TIMEOUTS_PER_SHARD = int(os.environ.get("VERIF_MAX_TIMEOUTS", "3"))
+NOT_RUN = "(not-run)"
+
+
 def _run_shard(args):
+    """One process per shard; one output line per input line.  A case that produces no output line within
+    CASE_TIMEOUT seconds is answered `(timeout)` (the implementation or the model hangs on it), a case on
+    which the process dies `(process-died rc=N)`; the remaining lines of the shard continue in a new process.
+    After MAX_TIMEOUTS_PER_SHARD hanging cases the rest of the shard is answered `(not-run)`."""
+    import select
     exe, lines, extra_env = args
     env = dict(os.environ)
     mode = "run"
     if isinstance(extra_env, tuple):
         extra_env, mode = extra_env
     env.update(extra_env or {})
-    p = subprocess.run([exe] + ([] if exe == DRIVER_EXE else [mode]), input="\n".join(lines) + "\n",
-                       stdout=subprocess.PIPE, stderr=subprocess.DEVNULL, text=True, env=env)
-    out = p.stdout.split("\n")
-    if out and out[-1] == "":
-        out.pop()
-    if len(out) != len(lines):
-        # a crash of the whole process (abort, stack overflow): find out where
-        out = out + ["(process-died rc=%d)" % p.returncode] * (len(lines) - len(out))
-    return out
+    limit = CASE_TIMEOUT * (3 if exe == DRIVER_EXE else 1) * float(env.get("VERIF_CASE_TIMEOUT_FACTOR", "1"))
+    out = []
+    timeouts = 0
+    while len(out) < len(lines):
+        if timeouts >= MAX_TIMEOUTS_PER_SHARD:
+            # enough hanging cases to report; the rest of the shard is not run (neither agreement nor disagreement)
+            out.extend([NOT_RUN] * (len(lines) - len(out)))
+            break
+        rest = lines[len(out):]
+        p = subprocess.Popen([exe] + ([] if exe == DRIVER_EXE else [mode]), stdin=subprocess.PIPE,
+                             stdout=subprocess.PIPE, stderr=subprocess.DEVNULL, env=env)
+        data = ("\n".join(rest) + "\n").encode("utf-8", "surrogateescape")
+
+        def feed(proc=p, data=data):
+            try:
+                proc.stdin.write(data)
+                proc.stdin.close()
+            except (BrokenPipeError, OSError, ValueError):
+                pass
+        th = threading.Thread(target=feed, daemon=True)
+        th.start()
+        fd = p.stdout.fileno()
+        buf = b""
+        got = 0
+        hung = False
+        while True:
+            r, _, _ = select.select([fd], [], [], limit)
+            if not r:
+                hung = True
+                break
+            chunk = os.read(fd, 1 << 16)
+            if not chunk:
+                break
+            buf += chunk
+            while True:
+                k = buf.find(b"\n")
+                if k < 0:
+                    break
+                out.append(buf[:k].decode("utf-8", "replace"))
+                got += 1
+                buf = buf[k + 1:]
+            if got >= len(rest):
+                break
+        if hung:
+            p.kill()
+            p.wait()
+            out.append("(timeout)")
+            timeouts += 1
+            continue
+        try:
+            p.wait(timeout=limit)
+        except subprocess.TimeoutExpired:
+            p.kill()
+            p.wait()
+        if got < len(rest):
+            # a crash of the whole process (abort, stack overflow) on the case after the last answer
+            out.append("(process-died rc=%d)" % p.returncode)
+    return out[:len(lines)]
 
 
 def run_lines(exe, lines, shards=NPROC, env=None, mode="run"):
@@ -578,7 +638,10 @@ def shrink_case(op, inp, still_fails, max_rounds=25, max_cands=400):
         cur = sx_parse(inp)
     except ValueError:
         return inp
+    deadline = time.time() + float(os.environ.get("VERIF_SHRINK_BUDGET", "180"))
     for _ in range(max_rounds):
+        if time.time() > deadline:
+            break
         cands = _sx_candidates(cur)
         seen = set()
         texts = []
